@@ -26,6 +26,14 @@ func checkC08(c *Ctx) {
 	cases := hostileSkipCases(c, c.Pick(120, 2500), 8)
 	cases = append(cases, wellFormedSkipCases(c, c.Pick(300, 5000), 88)...)
 	c.TraceCheck(famSkipC08, cases)
+	// the streaming template against the pushdown machine: MC (Machine = Reference, bounded stack) and the
+	// real template's SkipN request sequence replayed through the machine (drift) with its verdict (mismatch)
+	if c.Thorough() {
+		c.MC("MC_SkipMachine.tla", "MC_SkipMachine.cfg", 12)
+	} else {
+		c.MC("MC_SkipMachine.tla", "MC_SkipMachine_quick.cfg", 8)
+	}
+	c.TraceCheck(famTpl, cases)
 	c.Assume("inputs declaring more than 1 MiB are fed only to the non-allocating skippers (thrift.Binary.Skip, BytesSkipDecoder): the reader-backed ones allocate what is declared")
 }
 
